@@ -128,7 +128,26 @@ func explore(c *runCfg) (*loaded, map[string][]byte, []*sym.HarnessResult, error
 	t0 := time.Now()
 	l, err := load(c.repo, ov)
 	if err != nil {
-		return nil, nil, nil, err
+		// A harness file that reaches into unexported state may stop type-checking when the tree changes the
+		// representation. Such files are set aside (their harnesses are reported INCONCLUSIVE) and the remaining
+		// harnesses - in particular those that use only the exported API - still run.
+		dropped := 0
+		for f, msg := range loadErrFiles {
+			base := filepath.Base(f)
+			dir := filepath.Base(filepath.Dir(f))
+			if _, isOv := ov[f]; isOv && strings.HasPrefix(base, "zz_verif_") && dir != "zz_verifrt" && dir != "zz_verifref" {
+				delete(ov, f)
+				dropped++
+				fmt.Printf("INCONCLUSIVE property=%s harness file %s does not type-check against this tree and was set aside: %s\n", c.prop, base, msg)
+			}
+		}
+		if dropped == 0 {
+			return nil, nil, nil, err
+		}
+		l, err = load(c.repo, ov)
+		if err != nil {
+			return nil, nil, nil, err
+		}
 	}
 	fmt.Fprintf(os.Stderr, "symgo: loaded and built SSA in %.1fs\n", time.Since(t0).Seconds())
 	prefix := "VH_"
